@@ -33,16 +33,16 @@ type ClockPlan struct {
 }
 
 type ChildPlan struct {
-	Dir         string                                 `json:"dir"`
-	Name        string                                 `json:"name"`
-	Config      Config                                 `json:"config"`
-	Existing    bool                                   `json:"existing"`
-	Steps       []Op                                   `json:"steps"`
-	Crash       *CrashPoint                            `json:"crash,omitempty"`
-	Count       bool                                   `json:"count,omitempty"`
+	Dir      string      `json:"dir"`
+	Name     string      `json:"name"`
+	Config   Config      `json:"config"`
+	Existing bool        `json:"existing"`
+	Steps    []Op        `json:"steps"`
+	Crash    *CrashPoint `json:"crash,omitempty"`
+	Count    bool        `json:"count,omitempty"`
 	// ScanKeys: before the first step, read these <collection index, key> pairs and report the CAS of
 	// every document or tombstone found (in the READY line): what an earlier process left on disk
-	ScanKeys [][2]string `json:"scanKeys,omitempty"`
+	ScanKeys    [][2]string                            `json:"scanKeys,omitempty"`
 	Clock       *ClockPlan                             `json:"clock,omitempty"`
 	Model       *Model                                 `json:"model,omitempty"`
 	DDocs       map[int]map[string]map[string]ViewSpec `json:"ddocs,omitempty"`
